@@ -7,7 +7,7 @@ from flosim.gen import cfg_with
 class C10(FloCheck):
     pid = "C10"
     design_ref = "§6 C10"
-    cfg = cfg_with(p_susp_sibling=0.2, depth=4, p_go_early=0.3, p_go_me_parent=0.3, nframes=(2, 6), p_child=0.75, naux=(1, 2), p_caux=0.5, p_aux=0.05, p_done=0.7, p_go=0.6, p_bid=0.1, p_env=0.95)
+    cfg = cfg_with(p_susp_sibling=0.2, depth=4, p_go_early=0.3, p_go_me_parent=0.3, nframes=(2, 6), p_child=0.75, naux=(1, 2), p_caux=0.5, p_aux=0.05, p_done=0.7, p_go=0.6, p_bid=0.1, p_env=0.95, p_done_named=0.15)
     rule = ("generated programs with conditional auxiliaries at different depths, conditions toggled by the environment history at "
             "drawn ticks, auxiliaries that complete immediately / later / never ('done' in their last frame or not at all), and "
             "transitions that leave the main frame; direct invariant: no recur action of a frame below the main frame runs in "
@@ -15,6 +15,7 @@ class C10(FloCheck):
             "clauses skipped, resumes the same tick without re-entry, exited with its main frame) by the reference interpreter; "
             "non-trivial = a suspension happened; distinct = digest of per-run (status, active outline)")
     assumptions = ["the order between a frame's own exit actions and the exit of its running conditional aux is taken from the implementation (statement leaves it open)"]
+    directed_files = ("flo-done-verb-in-exit-of-cond-aux-frame",)
     required_probes = ["suspended", "aux-completed-and-resumed", "aux-immediate", "main-exited-while-suspended"]
 
     def invariants(self, plan, res, impl, out):
